@@ -75,6 +75,7 @@ def build_corpus(tier, seed):
         trees = small + rnd.sample([t for t in trees if gen.size(t) == nmax], 25000 - len(small))
     for t in trees:
         mk(cases, [("cmd", t)], [], "exhaustive")
+    nexh_trees = len(cases)
     # operator precedence: every tree with <= 6 nodes over two literals and the operators || | sequence [ ] ...
     memo2 = {}
     for n in range(5, 7):
@@ -135,7 +136,7 @@ def build_corpus(tier, seed):
                 tree = ("seq", [("sub", [L("--o="), ("alt", [L("p"), L("q")])]), L("z", s)])
             mk(cases, [("cmd", tree)], [], "descr")
             ndescr += 1
-    stats = {"exhaustive_trees": nexh, "exhaustive_trees_total": ntrees, "random_grammars": nrand, "layouts": nlay, "spellings": nspell, "descriptions": ndescr,
+    stats = {"exhaustive_trees": nexh_trees, "exhaustive_trees_total": ntrees, "precedence_and_within_word_trees": nexh - nexh_trees, "random_grammars": nrand, "layouts": nlay, "spellings": nspell, "descriptions": ndescr,
              "tlc_generation_states": res1.distinct + res2.distinct + res3.distinct, "tlc_generation_transitions": res1.generated + res2.generated + res3.generated}
     return cases, stats
 
